@@ -97,6 +97,15 @@ func PrintJobResult(w io.Writer, r *sym.JobResult, detail bool) {
 	}
 }
 
-func CheckMain(args []string) int     { fmt.Println("not implemented"); return 2 }
-func ReplayMain(args []string) int    { fmt.Println("not implemented"); return 2 }
-func SelfcheckMain(args []string) int { fmt.Println("not implemented"); return 2 }
+
+
+
+func SelfcheckMain(args []string) int {
+	l, err := sym.Load(DefaultLoad())
+	if err != nil {
+		fmt.Fprintln(os.Stderr, "selfcheck: load failed:", err)
+		return 2
+	}
+	fmt.Printf("selfcheck: loaded /repo with harness overlay in %v; %d harness functions\n", l.LoadTime, len(harnessNames(l, "decimal"))+len(harnessNames(l, "context")))
+	return 0
+}
